@@ -372,12 +372,13 @@ def _closed(t, depth=0):
 def delambda(hyps, goal, axioms):
     """z3's array-valued lambda terms are not SMT-LIB: every closed lambda is replaced by a fresh array constant with the
     quantified definition  forall k. c[k] = body(k)  (an equivalent formulation for a refutation check).  -> (hyps, goal, axioms)"""
-    defs, cache, counter = [], {}, [0]
+    defs, cache, counter, keep = [], {}, [0], []
 
     def go(e):
         k = e.get_id()
         if k in cache:
             return cache[k]
+        keep.append(e)
         if z3.is_quantifier(e) and e.is_lambda() and _closed(e):
             nv = e.num_vars()
             vs = [z3.Const(f"dl!k{counter[0]}_{i}", e.var_sort(i)) for i in range(nv)]
@@ -408,22 +409,122 @@ def delambda(hyps, goal, axioms):
     return h2 + defs, g2, a2
 
 
+def _arity(srt):
+    return z3.Z3_get_array_arity(srt.ctx_ref(), srt.ast) if srt.kind() == z3.Z3_ARRAY_SORT else 0
+
+
+def _curried_sort(srt):
+    if srt.kind() != z3.Z3_ARRAY_SORT:
+        return srt
+    n = _arity(srt)
+    doms = [srt.domain_n(i) for i in range(n)]
+    r = _curried_sort(srt.range())
+    for d in reversed(doms):
+        r = z3.ArraySort(d, r)
+    return r
+
+
+def curry(terms):
+    """z3's multi-index arrays (Array Int Int Real) have no SMT-LIB counterpart: rewrite them as arrays of arrays.
+    select(a, i, j) -> select(select(a', i), j); store likewise; constants and uninterpreted functions are re-declared over the
+    nested sorts.  Lambdas must have been removed before (delambda)."""
+    cache, decls, keep = {}, {}, []       # `keep` holds every visited AST: z3 ids of collected terms are reused
+
+    def nsel(a, idx):
+        for i in idx:
+            a = z3.Select(a, i)
+        return a
+
+    def nstore(a, idx, v):
+        if len(idx) == 1:
+            return z3.Store(a, idx[0], v)
+        return z3.Store(a, idx[0], nstore(z3.Select(a, idx[0]), idx[1:], v))
+
+    def go(e):
+        k = e.get_id()
+        if k in cache:
+            return cache[k]
+        keep.append(e)
+        if z3.is_var(e):
+            raise ValueError("free variable")
+        if z3.is_quantifier(e):
+            if e.is_lambda():
+                raise ValueError("lambda")
+            vs = [z3.Const(f"cy!q{e.get_id()}_{i}", _curried_sort(e.var_sort(i))) for i in range(e.num_vars())]
+            old = [z3.Const(f"cy!o{e.get_id()}_{i}", e.var_sort(i)) for i in range(e.num_vars())]
+            body = z3.substitute_vars(e.body(), *reversed(old))
+            for o_, n_ in zip(old, vs):
+                keep.append(o_)
+                cache[o_.get_id()] = n_
+            b2 = go(body)
+            r = z3.ForAll(vs, b2) if e.is_forall() else z3.Exists(vs, b2)
+            cache[k] = r
+            return r
+        ch = [go(c) for c in e.children()]
+        d = e.decl()
+        kind = d.kind()
+        if kind == z3.Z3_OP_SELECT:
+            r = nsel(ch[0], ch[1:])
+        elif kind == z3.Z3_OP_STORE:
+            r = nstore(ch[0], ch[1:-1], ch[-1])
+        elif kind == z3.Z3_OP_CONST_ARRAY:
+            srt = e.sort()
+            doms = [srt.domain_n(i) for i in range(_arity(srt))]
+            r = ch[0]
+            for dm in reversed(doms):
+                r = z3.K(dm, r)
+        elif kind == z3.Z3_OP_EQ:
+            r = ch[0] == ch[1]
+        elif kind == z3.Z3_OP_DISTINCT:
+            r = z3.Distinct(*ch)
+        elif kind == z3.Z3_OP_ITE:
+            r = z3.If(ch[0], ch[1], ch[2])
+        elif kind == z3.Z3_OP_UNINTERPRETED:
+            dom = [d.domain(i) for i in range(d.arity())]
+            if any(_arity(x) > 1 for x in dom + [d.range()]):
+                key = d.name() + "!" + str([str(x) for x in dom])
+                if key not in decls:
+                    if d.arity() == 0:
+                        decls[key] = z3.Const(d.name() + "!cy", _curried_sort(d.range()))
+                    else:
+                        decls[key] = z3.Function(d.name() + "!cy", *[_curried_sort(x) for x in dom], _curried_sort(d.range()))
+                r = decls[key] if d.arity() == 0 else decls[key](*ch)
+            else:
+                r = d(*ch) if ch and any(not a.eq(b) for a, b in zip(ch, e.children())) else e
+        else:
+            if any(_arity(c.sort()) > 1 for c in e.children()) or _arity(e.sort()) > 1:
+                raise ValueError(f"array operation {d.name()} on a multi-index array")
+            r = d(*ch) if ch and any(not a.eq(b) for a, b in zip(ch, e.children())) else e
+        cache[k] = r
+        return r
+    return [go(t) for t in terms]
+
+
 def _cvc5_text(o):
     """SMT-LIB text for cvc5: lambdas removed; multi-index arrays stay unsupported"""
     try:
         hyps, goal, axioms = delambda(o.hyps, o.goal, getattr(o, "axioms", []))
     except Exception:
         return "(set-logic ALL)\n" + smt2_text(o)
+    try:
+        allt = curry(list(hyps) + [goal] + list(axioms))
+        hyps, goal, axioms = allt[:len(hyps)], allt[len(hyps)], allt[len(hyps) + 1:]
+    except Exception:
+        pass        # left as it is: cvc5 will reject the multi-index sort and the obligation counts as unsupported
     s = z3.Solver()
     for a in axioms:
         s.add(a)
     for h in hyps:
         s.add(h)
     s.add(z3.Not(goal))
-    return "(set-logic ALL)\n" + s.to_smt2()
+    txt = s.to_smt2()
+    # uninterpreted special functions that share a name with cvc5's transcendental theory symbols
+    import re as _re
+    txt = _re.sub(r"(?<![\w!.$])(sqrt|cos|sin|tan|exp|arcsin|arccos|arctan|csc|sec|cot|pi)(?![\w!.$])", r"uf_\1", txt)
+    return "(set-logic ALL)\n" + txt
 
 
-def cross_check(obls, budget_s=600, per_query_ms=10000, jobs=12):
+def cross_check(obls, budget_s=1500, per_query_ms=10000, jobs=12):
     """Second opinion on discharged obligations: the plain SMT-LIB text of each one is given to cvc5 1.0.3.
     -> {"attempted", "confirmed_unsat", "undecided", "unsupported", "disagree": [ids]}.  `undecided` (timeout / unknown) and
     `unsupported` (z3-only syntax such as multi-index arrays or lambdas) say nothing; `disagree` means cvc5 answered `sat`."""
@@ -432,7 +533,7 @@ def cross_check(obls, budget_s=600, per_query_ms=10000, jobs=12):
     t0 = time.time()
     texts = []
     for o in cand:
-        if time.time() - t0 > budget_s / 4:
+        if time.time() - t0 > budget_s / 2:
             break
         try:
             texts.append((o, _cvc5_text(o)))       # text generation uses the z3 API: main thread only
